@@ -43,6 +43,8 @@ pub enum Act {
     FromVal(u8, Target),
     FromRef(u8, Target),
     Clone(u8),
+    /// slot a .clone_from(&slot b)  (a != b, same kind)
+    CloneFrom(u8, u8),
     Drop(u8),
     Call(u8, Op),
 }
@@ -54,6 +56,7 @@ impl Act {
             Act::FromVal(s, t) => 16 + s * 2 + t as u8, // 16..22
             Act::FromRef(s, t) => 24 + s * 2 + t as u8, // 24..30
             Act::Clone(s) => 32 + s,
+            Act::CloneFrom(a, b) => 40 + a * 4 + b,
             Act::Drop(s) => 36 + s,
             Act::Call(s, op) => 64 + s * 8 + op as u8,
         }
@@ -71,6 +74,7 @@ impl Act {
             24..=31 => Act::FromRef((b - 24) / 2, tgt((b - 24) % 2)),
             32..=35 => Act::Clone(b - 32),
             36..=39 => Act::Drop(b - 36),
+            40..=55 => Act::CloneFrom((b - 40) / 4, (b - 40) % 4),
             _ => Act::Call((b - 64) / 8, OPS[((b - 64) % 8) as usize]),
         }
     }
@@ -80,6 +84,7 @@ impl Act {
             Act::FromVal(s, t) => format!("slot{s} <- {t:?}::from(slot{s})"),
             Act::FromRef(s, t) => format!("slot <- {t:?}::from(&slot{s})"),
             Act::Clone(s) => format!("slot <- slot{s}.clone()"),
+            Act::CloneFrom(a, b) => format!("slot{a}.clone_from(&slot{b})"),
             Act::Drop(s) => format!("drop(slot{s})"),
             Act::Call(s, op) => format!("slot{s}.{op:?}"),
         }
@@ -127,6 +132,7 @@ fn abstract_pool(hist: &[u8]) -> [Option<(Kind, u8)>; SLOTS] {
                 pool[free.unwrap()] = Some((if t == Target::Full { Kind::Full } else { Kind::Dec }, key));
             }
             Act::Clone(s) => pool[free.unwrap()] = pool[s as usize],
+            Act::CloneFrom(a, b) => pool[a as usize] = pool[b as usize],
             Act::Drop(s) => pool[s as usize] = None,
             Act::Call(..) => {}
         }
@@ -204,6 +210,17 @@ impl HistModel {
                     let (k, key) = (*k, *key);
                     pool[free.unwrap()] = Some((c, k, key));
                 }
+                Act::CloneFrom(a, b) => {
+                    let (src, k, key) = pool[b as usize].take().unwrap();
+                    let ok = pool[a as usize].as_mut().unwrap().0.clone_from_inst(src.as_ref());
+                    if !ok {
+                        return Err(format!("step {step}: clone_from not available"));
+                    }
+                    let dst = pool[a as usize].as_mut().unwrap();
+                    dst.1 = k;
+                    dst.2 = key;
+                    pool[b as usize] = Some((src, k, key));
+                }
                 Act::Drop(s) => {
                     pool[s as usize] = None;
                 }
@@ -279,6 +296,16 @@ impl Model for HistModel {
             }
             if f.clone && free.is_some() {
                 actions.push(Act::Clone(s).encode());
+            }
+            if f.clone {
+                // in-place clone from another live instance of the same kind (keyed differently or not)
+                for (o, e2) in pool.iter().enumerate() {
+                    if let Some((k2, _)) = e2 {
+                        if o as u8 != s && k2 == k {
+                            actions.push(Act::CloneFrom(s, o as u8).encode());
+                        }
+                    }
+                }
             }
             actions.push(Act::Drop(s).encode());
             if f.calls {
